@@ -124,7 +124,7 @@ def shape(name, leaf):
         ct = {"k": "CType", "name": "CTV", "reject": ["c", rej], "fields": [["c", L]]}
         return {"fields": [["items", {"k": "List", "item": item}], ["t", ct], ["ts", {"k": "List", "item": ct}], w]}
     if name == "cfglist":
-        item = {"k": "Schema", "fields": [["c", L], ["r", {"k": "Str", "o": {"required": True}}]]}
+        item = {"k": "Schema", "fields": [["c", L], ["r", {"k": "Str", "o": {"required": True}}], ["inner", {"k": "Schema", "fields": [["e", L]]}]]}
         ct = {"k": "CType", "name": "CT", "fields": [["c", L]]}
         return {"fields": [["items", {"k": "List", "item": item}], ["t", ct], ["ts", {"k": "List", "item": ct}], w]}
     if name == "reuse":      # one sub-schema / config type reused as the item type of several lists
@@ -463,7 +463,11 @@ def apply_op(w, op):
         return None
     if name == "itemset":      # attribute of a configuration held in a list: items[i].c = v
         lst = chained(cfg, op[1])
-        setattr(lst[op[2]], op[3], w.dec(op[4]))
+        owner = lst[op[2]]
+        parts = op[3].split(".")
+        for part in parts[:-1]:
+            owner = getattr(owner, part)
+        setattr(owner, parts[-1], w.dec(op[4]))
         return None
     raise ValueError("unknown op %r" % (op,))
 
@@ -647,7 +651,18 @@ def ops_for(spec, leafname, tier="quick"):
         if f["k"] == "List" and isinstance(f.get("item"), dict) and f["item"]["k"] in ("Schema", "CType"):
             v_ok, v_bad = valid[-1], (invalid[0] if invalid else None)
             has_r = any(kk == "r" for kk, _ in f["item"]["fields"])
+            has_inner = any(kk == "inner" for kk, _ in f["item"]["fields"])
             good = D(("c", v_ok), ("r", "x")) if has_r else D(("c", v_ok))
+            if has_inner and _jsonlike(v_ok):
+                good = D(("c", v_ok), ("r", "x"), ("inner", D(("e", v_ok))))
+                ops.append(["itemset", key, 0, "inner.e", valid[0]])
+                if v_bad is not None:
+                    ops.append(["itemset", key, 0, "inner.e", v_bad])
+                    if _jsonlike(v_bad):
+                        ops.append(["mut", key, "append", D(("c", v_ok), ("r", "x"), ("inner", D(("e", v_bad))))])
+                        ops.append(["mut", key, "setitem", 0, D(("c", v_ok), ("r", "x"), ("inner", D(("e", v_bad))))])
+                ops.append(["itemset", key, 0, "inner", D(("e", v_ok))])
+                ops.append(["itemset", key, 0, "inner", 5])
             if _jsonlike(v_ok):
                 ops.append(["set", key, [good]])
                 ops.append(["mut", key, "append", good])
@@ -746,9 +761,9 @@ def strip_ids(snap):
     return tuple(out)
 
 
-def build_world(spec, hist, sibling=False):
-    """re-materialise the state reached by `hist` on a fresh schema and configuration"""
-    w = World(spec, hist[0][1], None, sibling=sibling)
+def build_world(spec, hist, sibling=False, built=None):
+    """re-materialise the state reached by `hist` on a fresh configuration (and a fresh schema unless one is shared)"""
+    w = World(spec, hist[0][1], built, sibling=sibling)
     for op in hist[1:]:
         try:
             apply_op(w, op)
@@ -757,7 +772,7 @@ def build_world(spec, hist, sibling=False):
     return w
 
 
-def explore(ctx, spec, leafname, depth, monitor, tier="quick", max_states=20000, only=None, sibling=False, extra_ops=()):
+def explore(ctx, spec, leafname, depth, monitor, tier="quick", max_states=20000, only=None, sibling=False, extra_ops=(), share_schema=False):
     """Breadth-first search over operation histories with canonical-state de-duplication.
     monitor.state(ctx, w, hist) is called for every newly reached state (incl. initial ones) and
     monitor.step(ctx, before, before_ids, op, outcome, w, hist) for every transition."""
@@ -766,6 +781,7 @@ def explore(ctx, spec, leafname, depth, monitor, tier="quick", max_states=20000,
     seen = {}
     frontier = collections.deque()
     cut = False
+    shared = Built(spec) if share_schema and only is None else None    # state kept on the schema's fields is then shared by all worlds
     if only is not None:
         hist, op = only
         try:
@@ -784,7 +800,7 @@ def explore(ctx, spec, leafname, depth, monitor, tier="quick", max_states=20000,
         return 1, len(ops)
     for init in inits:
         try:
-            w = World(spec, init, None, sibling=sibling)
+            w = World(spec, init, shared, sibling=sibling)
         except Exception as exc:  # noqa
             monitor.ctor_failed(ctx, spec, init, exc)
             continue
@@ -800,7 +816,7 @@ def explore(ctx, spec, leafname, depth, monitor, tier="quick", max_states=20000,
         d = len(hist) - 1
         ctx.depth = max(ctx.depth, d + 1)
         for op in ops:
-            w = build_world(spec, hist, sibling)
+            w = build_world(spec, hist, sibling, shared)
             before_ids = snapshot(w.cfg, with_ids=True)
             try:
                 outcome = ("ok", apply_op(w, op))
